@@ -132,7 +132,9 @@ where
         let reference_sequence_repository = self.get_ref().reference_sequence_repository().clone();
         let compression_header = self.container.compression_header()?;
 
-        let mut records = Vec::with_capacity(self.container.header().record_count());
+        // The record count of the container is not validated, i.e., the list grows as the records
+        // of the slices are read.
+        let mut records = Vec::new();
 
         for result in self.container.slices() {
             let slice = result?;
